@@ -178,7 +178,15 @@ def c06_stress_gen(rng, tier):
     n = budget(tier, 400, 3000)
     k = 0
     for rep in range(reps):
-        for via, idleus, slow in (("transport", 400, 0), ("transport", 1, 15), ("tcp", 2000, 0), ("udpfb", 0, 0)):
+        for via, idleus, slow in (("transport", 400, 0), ("transport", 1, 15), ("tcp", 2000, 0), ("udpfb", 0, 0), ("transport", 1, 0)):
+            if (via, idleus, slow) == ("transport", 1, 0):
+                # nearly every exchange dials; the dial takes 0..dialus, the impatient callers give up after 0..2*dialus:
+                # cancellations land around the hand-over of the freshly dialled connection (seed C06-L)
+                du = rng.choice([150, 400, 1000])
+                out.append("s%d via=transport n=%d conc=%d idleus=1 slowclose=0 cancel=%d split=0 abort=0 delayus=%d seed=%d dialus=%d" % (
+                    k, n, rng.choice([8, 16, 32]), rng.choice([50, 70]), du, rng.randrange(1, 1 << 30), du))
+                k += 1
+                continue
             out.append("s%d via=%s n=%d conc=%d idleus=%d slowclose=%d cancel=%d split=%d abort=%d delayus=%d seed=%d%s" % (
                 k, via, n if via != "udpfb" else n // 3, rng.choice([4, 16, 32]), idleus, slow,
                 rng.choice([10, 30, 60]), rng.choice([0, 20, 50]), rng.choice([0, 3, 10]),
@@ -201,10 +209,46 @@ def c06_stress_oracle(line, res):
     return None
 
 
+def c06_points_gen(rng, tier):
+    out = []
+    k = 0
+    for warm in (0, 1):
+        for at in range(1, budget(tier, 26, 40)):
+            for delayus in ((300,) if tier == "quick" else (0, 300, 3000)):
+                out.append("cp%d at=%d warm=%d delayus=%d" % (k, at, warm, delayus))
+                k += 1
+    return out
+
+
+def c06_points_oracle(line, res):
+    r = gens.fields(res)
+    if "x" not in r:
+        return None
+    xs = r["x"].split(",")
+    base = 1 if gens.fields(line).get("warm") == "1" else 0
+    for j, o in enumerate(xs):
+        if o.startswith("M"):
+            if "BADID" in o:
+                return "exchange %d got a reply whose id is not its own" % j
+            if o != "M%d" % (base + j):
+                return "exchange %d got the reply to another query (%s)" % (j, o)
+    for j, o in enumerate(xs[1:], 1):
+        if not o.startswith("M"):
+            return "follow-up exchange %d after a cancelled one failed (%s): %s" % (j, o, res)
+    if int(r.get("maxout", "0")) > 1:
+        return "the server saw %s queries outstanding on one connection" % r["maxout"]
+    if r.get("dirty") == "1":
+        return "a query arrived on a connection that still owed a reply"
+    return None
+
+
 PROPS["C06"] = dict(
     kinds=[
         dict(name="reuse", gen=c06_gen, oracle=c06_oracle, classify=c06_classify,
              nontrivial=lambda l, r: True, timeout=900, impl_shards=10),
+        dict(name="reuse_cancelpoints", gen=c06_points_gen, oracle=c06_points_oracle, model=False, timeout=600,
+             classify=lambda l, r: "warm" + gens.fields(l).get("warm", "?") + "/" + (gens.fields(r).get("x", "?").split(",")[0][:1]),
+             nontrivial=lambda l, r: True),
         dict(name="reuse_stress", gen=c06_stress_gen, oracle=c06_stress_oracle, model=False,
              classify=lambda l, r: "stress-" + gens.fields(l).get("via", "?"),
              nontrivial=lambda l, r: True, timeout=900),
@@ -213,7 +257,9 @@ PROPS["C06"] = dict(
          "abort of idle conns / idle-timer expiry / I/O deadline / Close) over a scripted loopback TCP server with "
          "per-query-unique replies, replayed on the real ReuseConnTransport and in the extracted Reuse.run_history; "
          "distinct = distinct history; all non-trivial (each drives real exchanges). reuse_stress: concurrent "
-         "non-quiescent runs through the transport, a tcp:// upstream and the TCP leg of a udp:// upstream, oracle only",
+         "non-quiescent runs through the transport, a tcp:// upstream and the TCP leg of a udp:// upstream, oracle only. "
+         "reuse_cancelpoints: the caller's context cancelled just before its i-th observation by the code (every i, fresh dial and "
+         "reused connection), then three follow-up exchanges, oracle only",
     assumptions=["atomicity and sequential consistency of Go mutex / channel / timer operations (the LTS steps)",
                  "loopback TCP: a reply written by the server is readable by the client; FIN/RST surface as read errors",
                  "timed histories: idle 300 ms / deadline 400 ms with automatic x3 re-run when the harness itself was slow"],
